@@ -750,18 +750,44 @@ static char *text_of_last (MIR_context_t ctx, size_t k, size_t *len) {
   fclose (f);
   return p;
 }
+/* labels L<n> renamed by first occurrence (the numbers depend on what the context did before) */
+static char *canon_labels (const char *t, size_t n, size_t *len) {
+  char *o = malloc (n * 2 + 16);
+  static long seen[4096];
+  size_t ns = 0, j = 0;
+  for (size_t i = 0; i < n;) {
+    if (t[i] == 'L' && i + 1 < n && t[i + 1] >= '0' && t[i + 1] <= '9'
+        && (i == 0 || t[i - 1] == '\n' || t[i - 1] == '\t' || t[i - 1] == ' ' || t[i - 1] == ',')) {
+      size_t e = i + 1, k;
+      long v = 0;
+      while (e < n && t[e] >= '0' && t[e] <= '9') v = v * 10 + (t[e++] - '0');
+      if (e < n && (t[e] == '_' || (t[e] >= 'a' && t[e] <= 'z') || (t[e] >= 'A' && t[e] <= 'Z'))) {
+        while (i < e) o[j++] = t[i++];
+        continue;
+      }
+      for (k = 0; k < ns && seen[k] != v; k++)
+        ;
+      if (k == ns && ns < 4096) seen[ns++] = v;
+      j += sprintf (o + j, "L#%zu", k + 1);
+      i = e;
+    } else
+      o[j++] = t[i++];
+  }
+  *len = j;
+  return o;
+}
 static const char *volatile hist_cur;
 static volatile int hist_final, hist_run;
 static char hist_hash[8];
 static void used_read (FILE *out, const char *desc) {
   static const char *hists[] = {"S", "s", "b", "Sr", "rS", "bS", "Sb", "sw", "Swb", "rbS", "SoS", "bws", "Srw", hist_hash, NULL};
   static volatile int hi;
-  static int bad;
+  static int bad, us_bad;
   uint32_t h = 2166136261u;
   size_t k = DLIST_LENGTH (MIR_module_t, *MIR_get_module_list (a));
   for (const char *p = desc; *p; p++) h = (h ^ (uint8_t) *p) * 16777619u;
   for (int i = 0, n = 3 + h % 4; i < n; i++, h /= 7) hist_hash[i] = "sSbrwo"[(h >> 3) % 6], hist_hash[i + 1] = 0;
-  bad = 0;
+  bad = us_bad = 0;
   hist_run = 0;
   for (hi = 0; hists[hi] != NULL && !bad; hi++) {
     hist_cur = hists[hi];
@@ -770,6 +796,11 @@ static void used_read (FILE *out, const char *desc) {
     MIR_set_error_func (u, err_func);
     if (setjmp (err_jmp)) {
       if (!hist_final) continue; /* an operation of the history itself is refused (text the scanner rejects): not this check */
+      if (hist_final == 2) {
+        if (!us_bad) fprintf (out, "|US=%s:ERR:%s", hist_cur, err_msg);
+        us_bad = 1;
+        continue;
+      }
       fprintf (out, "|UR=%s:ERR:%s", hist_cur, err_msg);
       bad = 1;
       continue;
@@ -788,9 +819,57 @@ static void used_read (FILE *out, const char *desc) {
       }
       free (t);
     }
+    if (!bad) {
+      /* the modules just read, written one by one FROM the used context and read into a fresh one: T0 again */
+      static MIR_context_t v;
+      static buf_t img;
+      DLIST (MIR_module_t) *l = MIR_get_module_list (u);
+      size_t nm = DLIST_LENGTH (MIR_module_t, *l), i = 0, n;
+      char *t;
+      v = MIR_init ();
+      MIR_set_error_func (v, err_func);
+      for (MIR_module_t m = DLIST_HEAD (MIR_module_t, *l); m != NULL; m = DLIST_NEXT (MIR_module_t, m), i++)
+        if (i + k >= nm) {
+          memset (&wbuf, 0, sizeof (wbuf));
+          MIR_write_module_with_func (u, writer, m);
+          img = wbuf;
+          rbuf = &img;
+          rpos = 0;
+          MIR_read_with_func (v, reader);
+          free (img.p);
+        }
+      memset (&wbuf, 0, sizeof (wbuf));
+      t = text_of (v, &n);
+      if (n != n0 || memcmp (t, t0, n0) != 0) {
+        fprintf (out, "|UR=%s+write:", hist_cur);
+        put_hex (out, (const uint8_t *) t, n < 6000 ? n : 6000);
+        bad = 1;
+      }
+      free (t);
+      MIR_finish (v);
+    }
+    if (!bad && sc_ok && !us_bad) {
+      /* the text round trip into the same used context (C10): the scanned modules print as the modules scanned into a
+         fresh context do, up to the numbers the context gives to labels */
+      size_t n, nc, nc2;
+      char *t, *tc, *tc2;
+      hist_final = 2;
+      MIR_scan_string (u, t0);
+      t = text_of_last (u, k, &n);
+      tc = canon_labels (t, n, &nc);
+      tc2 = canon_labels (t2, n2, &nc2);
+      if (nc != nc2 || memcmp (tc, tc2, nc) != 0) {
+        fprintf (out, "|US=%s:", hist_cur);
+        put_hex (out, (const uint8_t *) t, n < 6000 ? n : 6000);
+        us_bad = 1;
+      }
+      free (t), free (tc), free (tc2);
+      hist_final = 1;
+    }
     MIR_finish (u);
   }
   if (!bad) fprintf (out, "|UR=ok");
+  if (sc_ok && !us_bad) fprintf (out, "|US=ok");
   fprintf (out, "|URN=%d", (int) hist_run);
 }
 
@@ -1032,11 +1111,6 @@ static void run_case (FILE *out, char *desc) {
     }
     fflush (out);
   }
-  if (rb_ok && t0 != NULL) {
-    STAGE ("used-read");
-    used_read (out, desc_copy);
-    fflush (out);
-  }
   if (want_exec) {
     STAGE ("exec-original");
     exec_ctx (out, "X0", a);
@@ -1081,6 +1155,11 @@ static void run_case (FILE *out, char *desc) {
       }
       fflush (out);
     }
+  }
+  if (rb_ok && t0 != NULL) {
+    STAGE ("used-read");
+    used_read (out, desc_copy);
+    fflush (out);
   }
   if (want_exec && sc_ok) {
     STAGE ("exec-after-scan");
